@@ -261,7 +261,7 @@ def fmt_fn_line(fn, bb, idx="t"):
     return "%s:%s" % (fn.file, ln)
 
 
-def backward_fields(fn, operand, maxdepth=8):
+def backward_fields(fn, operand, maxdepth=60):
     """(adt, field) pairs read on the backward slice of an operand through local definitions
     (all definitions of each local; call results depend on all call arguments)."""
     out = set()
@@ -303,7 +303,7 @@ def ref_targets(fn):
     return out
 
 
-def backward_slice(fn, operand, maxdepth=10):
+def backward_slice(fn, operand, maxdepth=60):
     """(fields_read, callee names, const values) on the backward slice of an operand"""
     fields, callees, consts = set(), set(), []
     seen = set()
@@ -330,3 +330,67 @@ def backward_slice(fn, operand, maxdepth=10):
                 for x in payload["args"]:
                     work.append((x, d + 1))
     return fields, callees, consts
+
+
+def _promoted_variant(fn, operand, adt):
+    """variant name if operand is (a ref to) a promoted constant / aggregate of enum `adt`"""
+    if is_const(operand) and "promoted" in operand["c"]:
+        pb = fn.j.get("promoted", [])[operand["c"]["promoted"]]
+        for b in pb["blocks"]:
+            for st in b["s"]:
+                if st["k"] == "assign" and st["rv"]["k"] == "agg" and st["rv"].get("adt") == adt:
+                    return st["rv"]["v"]
+    return None
+
+
+def reach_under_variant(prog, fn, adt, variant, start=0):
+    """Blocks reachable from `start` when every value of enum type `adt` inspected by the function is
+    `variant`: switches on Discriminant(place: adt) follow that arm only; bool switches on
+    PartialEq::eq/ne(&place: adt, &CONST_VARIANT) are decided; everything else follows all edges."""
+    res = Resolver(fn)
+    seen = set()
+    st = [start]
+    while st:
+        b = st.pop()
+        if b in seen:
+            continue
+        seen.add(b)
+        t = fn.term(b)
+        succs = fn.succs(b)
+        if t["k"] == "switch" and is_place(t["d"]) and not proj(t["d"]):
+            d = fn.single_def(t["d"]["l"])
+            decided = None
+            if d and d[2] == "assign" and d[3]["k"] == "discr" and d[3].get("adt") == adt:
+                vs = prog.enum_variants(adt)
+                want = [k for k, v in vs.items() if v == variant]
+                tgt = None
+                for val, tb in t["ts"]:
+                    if want and val == want[0]:
+                        tgt = tb
+                decided = [tgt if tgt is not None else t["o"]]
+            elif d and d[2] == "call":
+                ct = d[3]
+                cn = callee_written(ct) or ""
+                if cn in ("core::cmp::PartialEq::ne", "core::cmp::PartialEq::eq") and len(ct["args"]) == 2:
+                    tys = [fn.local_adt(a["l"]) if is_place(a) else None for a in ct["args"]]
+                    if adt in tys:
+                        other = None
+                        for a in ct["args"]:
+                            r = res.root(a)
+                            if r[0] == "const":
+                                pv = _promoted_variant(fn, r[1], adt)
+                                if pv:
+                                    other = pv
+                            elif r[0] == "agg" and r[1][2].get("adt") == adt:
+                                other = r[1][2]["v"]
+                        if other is not None:
+                            truth = (variant == other) if cn.endswith("::eq") else (variant != other)
+                            tgt = None
+                            for val, tb in t["ts"]:
+                                if val == (1 if truth else 0):
+                                    tgt = tb
+                            decided = [tgt if tgt is not None else t["o"]]
+            if decided is not None:
+                succs = decided
+        st.extend(succs)
+    return seen
